@@ -175,6 +175,19 @@ func c09Check(w *World) []Violation {
 				legal = contains(c09AfterRequest, to) && requested(e.Proc, entered[e.Proc], i)
 			}
 		}
+		if !legal && from == "Terminating" && contains(c09AfterRequest, to) && requested(e.Proc, entered[e.Proc], i) {
+			// a process stopped while it was pending has no command and stays Terminating; a start or
+			// restart request then creates the next instance straight from that status
+			alive := 0
+			for j := 0; j < i; j++ {
+				if baseOf(tr[j].Proc) == e.Proc && tr[j].Kind == "start" {
+					alive++
+				} else if baseOf(tr[j].Proc) == e.Proc && tr[j].Kind == "exit" {
+					alive--
+				}
+			}
+			legal = alive == 0
+		}
 		if !legal {
 			vs = append(vs, viol("C09", "illegal-transition:"+from+"->"+to, "process %s: status %s -> %s at t=%v without a request that allows it", e.Proc, from, to, e.T))
 		}
